@@ -108,7 +108,7 @@ inline Op decode(const uint8_t* b, const Profile& p) {
       static const int conc_funcs[] = {F_f, F_f, F_f, F_f, F_g, F_ovi, F_ovs, F_h, F_v, F_cf, F_f, F_g};
       o.a[CA_FUNC] = p.concentrate ? conc_funcs[b[5] % 12] : b[5] % NFUNC;
       o.a[CA_TERM] = pct(6, p.p_throw_term) ? 1 : 0;
-      int nseq = pct(7, p.p_seq) ? (pct(8, p.p_seq2) ? 2 : 1) : 0;
+      int nseq = pct(7, p.p_seq) ? (pct(8, p.p_seq2) ? (b[8] >= 200 ? 3 : 2) : 1) : 0;   // 3: a member of every sequence
       o.a[CA_NSEQ] = nseq;
       o.a[CA_SEQ0] = b[9] % NSEQ;
       o.a[CA_SEQ1] = (o.a[CA_SEQ0] + 1 + b[10] % (NSEQ - 1)) % NSEQ;
